@@ -192,4 +192,19 @@ theorem nu_le_of_repr {M N : ℕ} (hN : 0 < N) (x y : Ks.R N) (E : Poly) (hE : E
     Int.add_mul_bmod_self_left]
   exact le_trans (abs_bmod_le _ _) (abs_getD_le_normInf E k)
 
+/-- from the measure back to coefficients: every coefficient is `e + M·q` with `|e| ≤ B` -/
+theorem coef_of_nu {M N : ℕ} (x : Ks.R N) (B : ℤ) (h : nu M N x ≤ B) (k : ℕ) :
+    ∃ e q : ℤ, (coefL N x).getD k 0 = e + (M : ℤ) * q ∧ |e| ≤ B := by
+  refine ⟨Int.bmod ((coefL N x).getD k 0) M, Int.bdiv ((coefL N x).getD k 0) M, ?_, le_trans (coef_le_nu x k) h⟩
+  have := Int.bmod_add_bdiv ((coefL N x).getD k 0) M; linarith
+
+theorem coefL_sub {N : ℕ} (hN : 0 < N) (x y : Ks.R N) (k : ℕ) :
+    (coefL N (x - y)).getD k 0 = (coefL N x).getD k 0 - (coefL N y).getD k 0 := by
+  rw [sub_eq_add_neg, coefL_add hN, getD_polyAdd' _ _ (by rw [coefL_length hN, coefL_length hN]), coefL_neg hN, getD_polyScale']
+  ring
+
+theorem coefL_scale_ι {N : ℕ} (hN : 0 < N) (c : ℤ) (a : Poly) (ha : a.length = N) (k : ℕ) :
+    (coefL N ((c : Ks.R N) * Ks.ι N a)).getD k 0 = c * a.getD k 0 := by
+  rw [← Ks.ι_polyScale, coefL_ι hN _ (by simp [polyScale, ha]), getD_polyScale']
+
 end RingNu
